@@ -292,6 +292,17 @@ func c01R2(c *Ctx, r *Report) {
 		var order []string
 		// `for _, w := range [...]uint16{dh.Id, dh.Bits, ...}`: the loop variable stands for the listed fields in turn
 		ranged := map[types.Object][]string{}
+		tables := map[types.Object]*ast.CompositeLit{}
+		ast.Inspect(fd.Body, func(n ast.Node) bool {
+			if as, ok := n.(*ast.AssignStmt); ok && as.Tok == token.DEFINE && len(as.Lhs) == 1 && len(as.Rhs) == 1 {
+				if id, isId := as.Lhs[0].(*ast.Ident); isId {
+					if cl, isCl := ast.Unparen(as.Rhs[0]).(*ast.CompositeLit); isCl {
+						tables[c.Info.Defs[id]] = cl
+					}
+				}
+			}
+			return true
+		})
 		ast.Inspect(fd.Body, func(n ast.Node) bool {
 			rs, ok := n.(*ast.RangeStmt)
 			if !ok {
@@ -299,13 +310,39 @@ func c01R2(c *Ctx, r *Report) {
 			}
 			v, isId := rs.Value.(*ast.Ident)
 			cl, isCl := ast.Unparen(rs.X).(*ast.CompositeLit)
+			if xid, isX := ast.Unparen(rs.X).(*ast.Ident); isX && !isCl {
+				// a table kept in a local: words := [...]uint16{...}; for _, w := range words
+				cl, isCl = tables[c.Info.Uses[xid]], tables[c.Info.Uses[xid]] != nil
+			}
 			if !isId || !isCl {
 				return true
 			}
+			// an element is the field, its address, or a struct literal one of whose members is that
+			var fieldIn func(e ast.Expr, depth int) string
+			fieldIn = func(e ast.Expr, depth int) string {
+				e = ast.Unparen(e)
+				if u, ok := e.(*ast.UnaryExpr); ok && u.Op == token.AND {
+					e = ast.Unparen(u.X)
+				}
+				if kv, ok := e.(*ast.KeyValueExpr); ok {
+					return fieldIn(kv.Value, depth)
+				}
+				if f := c.fieldOf(e); f != nil {
+					return f.Name()
+				}
+				if sub, ok := e.(*ast.CompositeLit); ok && depth < 2 {
+					for _, m := range sub.Elts {
+						if n := fieldIn(m, depth+1); n != "" {
+							return n
+						}
+					}
+				}
+				return ""
+			}
 			var names []string
 			for _, el := range cl.Elts {
-				if f := c.fieldOf(el); f != nil {
-					names = append(names, f.Name())
+				if n := fieldIn(el, 0); n != "" {
+					names = append(names, n)
 				} else {
 					names = append(names, "?")
 				}
@@ -328,7 +365,22 @@ func c01R2(c *Ctx, r *Report) {
 			} else {
 				fe = as.Lhs[0]
 			}
-			if id, isId := ast.Unparen(fe).(*ast.Ident); isId && ranged[c.Info.Uses[id]] != nil {
+			// the loop variable itself, or a member of it (*f.dst)
+			root := ast.Unparen(fe)
+			for {
+				switch t := root.(type) {
+				case *ast.StarExpr:
+					root = ast.Unparen(t.X)
+					continue
+				case *ast.SelectorExpr:
+					if c.fieldOf(t) == nil || ranged[c.Info.Uses[rootIdent(t)]] != nil {
+						root = ast.Unparen(t.X)
+						continue
+					}
+				}
+				break
+			}
+			if id, isId := root.(*ast.Ident); isId && ranged[c.Info.Uses[id]] != nil {
 				order = append(order, ranged[c.Info.Uses[id]]...)
 			} else if f := c.fieldOf(fe); f != nil {
 				order = append(order, f.Name())
@@ -1251,4 +1303,20 @@ func checkAdvance(c *Ctx, fn *ssa.Function, offParam ssa.Value, offIdx int, n in
 		}
 	}
 	return problems
+}
+
+// rootIdent: the identifier a selector chain starts from (nil when it starts from something else).
+func rootIdent(e ast.Expr) *ast.Ident {
+	for {
+		switch t := ast.Unparen(e).(type) {
+		case *ast.Ident:
+			return t
+		case *ast.SelectorExpr:
+			e = t.X
+		case *ast.StarExpr:
+			e = t.X
+		default:
+			return nil
+		}
+	}
 }
